@@ -285,6 +285,12 @@ def pairing_and_filter(check, P, cls_name, n_samples=4):
                 bad = next((g for g, w in zip(got, want) if g != w), got[:1])
                 check.violation("R3", f"{short}:sample-pairing", f"the samples pair the coordinates ({tx[:40]}, {ty[:40]}) with heights {str(bad)[:160]}: not the map's height at the same location", [decisions_text(path)])
             continue
+        if not items and not stacks:
+            # row-fill form: out = numpy.empty((n, 3)); out[i] = (x, y, depth) for every sample; return out
+            fills = [e for e in path.trace if e.kind == "MUT" and e.data.get("method") == "__setitem__" and e.data.get("obj") == path.value
+                     and len(e.data.get("args", ())) == 2 and isinstance(e.data["args"][1], Tup)]
+            if fills:
+                items = [e.data["args"][1] for e in fills]
         if not items:
             continue
         for t in items:
